@@ -45,8 +45,21 @@ def gold_case(text, sep, family, oracle=None):
                 dec=lambda w: decode_result(w, j2text), oracle=oracle, nontrivial=lambda m: True)
 
 
-def tree_cases(rng, trees, sep, style, family):
+def spurious(trees, sep, lines):
+    """some separator occurs in a compact line where the joining did not put it"""
+    for t, utt in zip(trees, lines):
+        nph = sum(len(s) for w in t for s in w)
+        nsy = sum(len(w) for w in t)
+        want = {0: nph, 1: nsy, 2: len(t)}
+        for i, x in enumerate(sep):
+            if x and sum(1 for k in range(len(utt)) if utt.startswith(x, k)) > want[i]:
+                return True
+    return False
+
+
+def tree_cases(rng, trees, sep, style, family, check_punct=True):
     lines = [sl.render(t, sep, style) for t in trees]
+    cls = (lambda out: {'spurious_separator_occurrence'} if style == 'compact' and spurious(trees, sep, lines) else set())
     text = []
     kept = []
     for l in lines:
@@ -79,10 +92,12 @@ def tree_cases(rng, trees, sep, style, family):
                     return '%s output contains a separator fragment: %r' % (name, l)
             return None
         return f
-    out = [prepare_case(text, sep, 'phone', family, oracle=views_ok('prepare(phone)', phones)),
+    out = [prepare_case(text, sep, 'phone', family, cp=check_punct, oracle=views_ok('prepare(phone)', phones)),
            gold_case(text, sep, family, oracle=views_ok('gold', words))]
     if sep[1]:
-        out.append(prepare_case(text, sep, 'syllable', family, oracle=views_ok('prepare(syllable)', sylls)))
+        out.append(prepare_case(text, sep, 'syllable', family, cp=check_punct, oracle=views_ok('prepare(syllable)', sylls)))
+    for c in out:
+        c['classes'] = cls
     return out
 
 
@@ -91,6 +106,8 @@ def main():
     failures = ck.prove()
     rng = ck.rng
     cases = []
+    for c in load_corpus('C04'):
+        cases.extend(tree_cases(rng, c['trees'], tuple(c['sep']), 'compact', 'corpus', check_punct=False))
     n = 1500 if ck.thorough else 130
     for k in range(n):
         fam = ['ascii', 'multi', 'ipa', 'sepfrag'][k % 4]
